@@ -67,8 +67,14 @@ let rec p_stmt c : stmt =
     SWrBlk (nat_of_int a, nat_of_int d, p_expr c)
   | 'S' -> adv c; let a = p_uint c in expect c '.'; let d = p_uint c in expect c '=';
     SWrSh (nat_of_int a, nat_of_int d, p_expr c)
-  | 'A' -> adv c; let a = p_uint c in expect c '['; let i = p_expr c in expect c ']'; expect c '+'; expect c '=';
-    SAtom (nat_of_int a, i, p_expr c)
+  | 'A' -> adv c; let a = p_uint c in expect c '['; let i = p_expr c in expect c ']';
+    let two = if c.p + 1 < String.length c.s then String.sub c.s c.p 2 else "" in
+    c.p <- c.p + 2;
+    (* @atomic ++x / --x  are  x += 1 / x += -1 *)
+    if two = "+=" then SAtom (nat_of_int a, i, p_expr c)
+    else if two = "++" then SAtom (nat_of_int a, i, EConst (z_of_int 1))
+    else if two = "--" then SAtom (nat_of_int a, i, EConst (z_of_int (-1)))
+    else bad ("atomic form in " ^ c.s)
   | 'I' -> adv c; expect c '('; let e = p_expr c in expect c ')';
     let a = p_block c in let b = p_block c in SIf (e, a, b)
   | 'F' -> adv c; SFirst (p_block c)
